@@ -5,6 +5,7 @@ import (
 	"go/constant"
 	"go/token"
 	"go/types"
+	"strings"
 
 	"cachelint/internal/core"
 
@@ -467,7 +468,7 @@ func c10H2H3(r *Run, rep *core.Report) {
 					okp = true
 				}
 			}
-			if cc, isCall := core.StripConv(args[0]).(*ssa.Call); isCall && core.CalleeID(cc) == "unsafe.StringData" {
+			if cc, isCall := core.StripConv(args[0]).(*ssa.Call); isCall && (core.CalleeID(cc) == "unsafe.StringData" || core.IsBuiltinCall(cc) == "StringData") {
 				base1 = cc.Call.Args[0]
 				okp = true
 			}
@@ -681,11 +682,107 @@ func storedKeyFrom(r *Run, v ssa.Value, src *ssa.Parameter) bool {
 func c10H5(r *Run, rep *core.Report) {
 	reach := apiReachable(r)
 	n := 0
+	// siteOK: the instruction (a panic, or a call of a helper that panics) cannot execute on a valid call: it sits behind
+	// the 'is nil' edge of a function-typed argument, in a block that is dead under every constant mode, or behind a
+	// flag that is never set
+	siteOK := func(f *ssa.Function, in ssa.Instruction) (bool, string) {
+		if nilFuncArgGuard(f, in.Block()) {
+			return true, "panic taken only for a nil function argument (a call outside every property's quantifier)"
+		}
+		if why := nilObjectGuard(r, f, in.Block()); why != "" {
+			return true, why
+		}
+		dead := true
+		for _, sp := range specsFor(r, f) {
+			if sp.Reachable(f)[in.Block()] {
+				dead = false
+			}
+		}
+		if dead {
+			return true, "unreachable: dead under every constant mode"
+		}
+		for _, b := range f.Blocks {
+			iff, isIf := b.Instrs[len(b.Instrs)-1].(*ssa.If)
+			if !isIf {
+				continue
+			}
+			ld, isLd := iff.Cond.(*ssa.UnOp)
+			if !isLd {
+				continue
+			}
+			g, isG := ld.X.(*ssa.Global)
+			if !isG || globalEverSet(r, g) {
+				continue
+			}
+			if b.Succs[0].Dominates(in.Block()) && !blockReach(b.Succs[1])[in.Block()] {
+				return true, "guarded by a flag that is never set"
+			}
+			// short-circuit forms: the flag's true edge leads to a block that dominates the panic
+			for _, s := range blockReachList(b.Succs[0]) {
+				if s.Dominates(in.Block()) && !blockReach(b.Succs[1])[in.Block()] {
+					return true, "guarded by a flag that is never set"
+				}
+			}
+		}
+		return false, ""
+	}
+	// panics no evaluated path of a constructor reaches (a sanity check of the normalised configuration)
+	var ctorPanics map[string]bool
+	ctorPanicAt := func(pos string) bool {
+		if ctorPanics == nil {
+			ctorPanics = map[string]bool{}
+			for i := 0; i < 2; i++ {
+				if ctor := r.M.CacheCtor[i]; ctor != nil {
+					it := newInterp(r, false)
+					it.MaxPaths = 2000
+					for _, p := range it.Run(ctor) {
+						if p.Panic {
+							ctorPanics[p.PanicPos] = true
+						}
+					}
+					if it.Overflow {
+						ctorPanics["*"] = true
+					}
+				}
+			}
+		}
+		return ctorPanics[pos] || ctorPanics["*"]
+	}
+	var helperOK func(f *ssa.Function, depth int) (bool, string)
+	helperOK = func(f *ssa.Function, depth int) (bool, string) {
+		// a helper that panics (panicNilFunc, assert): judged where it is called
+		if depth > 2 || f.Object() != nil && f.Object().Exported() {
+			return false, ""
+		}
+		sites := core.CallSitesOf(r.P.Funcs, f)
+		nSites := 0
+		why := ""
+		for _, site := range sites {
+			g := site.Parent()
+			if !reach[g] {
+				continue
+			}
+			nSites++
+			in, _ := site.(ssa.Instruction)
+			if ok, w := siteOK(g, in); ok {
+				why = w
+				continue
+			}
+			if ok, w := helperOK(g, depth+1); ok {
+				why = w
+				continue
+			}
+			return false, ""
+		}
+		if nSites == 0 {
+			return false, ""
+		}
+		return true, "every call of this helper: " + why
+	}
 	for _, f := range r.P.Funcs {
 		if !reach[f] {
 			continue
 		}
-		specs := specsFor(r, f)
 		core.Instrs(f, func(in ssa.Instruction) {
 			pn, ok := in.(*ssa.Panic)
 			if !ok {
@@ -701,41 +798,101 @@ func c10H5(r *Run, rep *core.Report) {
 				rep.Pass("C10.H5", fn(f)+" argument validation", r.P.InstrPos(in), "panic taken only for a nil function argument (a call outside every property's quantifier)")
 				return
 			}
-			dead := true
-			for _, sp := range specs {
-				if sp.Reachable(f)[in.Block()] {
-					dead = false
-				}
+			okv, why := siteOK(f, in)
+			if !okv {
+				okv, why = helperOK(f, 0)
 			}
-			guarded := false
-			for _, b := range f.Blocks {
-				iff, isIf := b.Instrs[len(b.Instrs)-1].(*ssa.If)
-				if !isIf {
-					continue
-				}
-				ld, isLd := iff.Cond.(*ssa.UnOp)
-				if !isLd {
-					continue
-				}
-				g, isG := ld.X.(*ssa.Global)
-				if !isG || globalEverSet(r, g) {
-					continue
-				}
-				if b.Succs[0].Dominates(in.Block()) && !blockReach(b.Succs[1])[in.Block()] {
-					guarded = true
-				}
-				// short-circuit forms: the flag's true edge leads to a block that dominates the panic
-				for _, s := range blockReachList(b.Succs[0]) {
-					if s.Dominates(in.Block()) && !blockReach(b.Succs[1])[in.Block()] {
-						guarded = true
-					}
-				}
+			if !okv && f.Pkg == r.P.Cache && ctorOnlyReach(r, f) && !ctorPanicAt(r.P.InstrPos(in)) {
+				okv, why = true, "no evaluated path of the constructors reaches it (the configuration is normalised before)"
 			}
-			rep.Check(dead || guarded, "C10.H5", fn(f)+" explicit panic", r.P.InstrPos(in), "unreachable: dead under every constant mode or guarded by a flag that is never set",
+			if why == "" {
+				why = "unreachable: dead under every constant mode or guarded by a flag that is never set"
+			}
+			rep.Check(okv, "C10.H5", fn(f)+" explicit panic", r.P.InstrPos(in), why,
 				"an explicit panic is reachable from the public API: some valid call can make the operation panic")
 		})
 	}
 	rep.MinCount("C10.H5", "explicit panic sites examined", n, 2)
+}
+
+// nilObjectGuard: the block is entered only through the 'is nil' edge of a test of the method's receiver (a method
+// called on a nil map: not a call of the API) or of the table pointer loaded from the map (never nil on a map made by
+// its constructor: the constructor and resize store fresh tables only - C03/C04.P4).
+func nilObjectGuard(r *Run, f *ssa.Function, b *ssa.BasicBlock) string {
+	for d := b; d != nil; d = d.Idom() {
+		if len(d.Preds) != 1 {
+			continue
+		}
+		p := d.Preds[0]
+		iff, ok := p.Instrs[len(p.Instrs)-1].(*ssa.If)
+		if !ok {
+			continue
+		}
+		bo, ok := iff.Cond.(*ssa.BinOp)
+		if !ok || (bo.Op != token.EQL && bo.Op != token.NEQ) {
+			continue
+		}
+		nilEdge := 0
+		if bo.Op == token.NEQ {
+			nilEdge = 1
+		}
+		if p.Succs[nilEdge] != d {
+			continue
+		}
+		for _, pair := range [][2]ssa.Value{{bo.X, bo.Y}, {bo.Y, bo.X}} {
+			if !core.IsNilConst(pair[1]) {
+				continue
+			}
+			v := core.StripConv(pair[0])
+			if prm, isP := v.(*ssa.Parameter); isP && f.Signature.Recv() != nil && len(f.Params) > 0 && prm == f.Params[0] {
+				return "panic taken only for a nil receiver (not a call of the API on a map)"
+			}
+			if c, isCall := v.(*ssa.Call); isCall {
+				if op, addr, isAt := core.AtomicOp(c); isAt && op == "Load" {
+					a := core.Addr(addr)
+					for _, mm := range r.M.Maps {
+						if a.Owner == mm.Name && a.Field == mm.TableF {
+							return "panic taken only for a nil table pointer (a map not made by its constructor; constructor and resize store fresh tables only)"
+						}
+					}
+				}
+			}
+		}
+	}
+	return ""
+}
+
+// ctorOnlyReach: f is called (transitively, statically) only from the cache constructors.
+func ctorOnlyReach(r *Run, f *ssa.Function) bool {
+	seen := map[*ssa.Function]bool{}
+	var up func(g *ssa.Function, d int) bool
+	up = func(g *ssa.Function, d int) bool {
+		if g == r.M.CacheCtor[0] || g == r.M.CacheCtor[1] {
+			return true
+		}
+		if seen[g] || d > 4 {
+			return seen[g]
+		}
+		seen[g] = true
+		sites := core.CallSitesOf(r.P.Funcs, g)
+		if len(sites) == 0 {
+			return false
+		}
+		for _, s := range sites {
+			p := s.Parent()
+			if p.Pkg != r.P.Cache {
+				return false
+			}
+			if strings.HasSuffix(r.P.Pos(p.Pos()), "_test.go") {
+				continue
+			}
+			if !up(p, d+1) {
+				return false
+			}
+		}
+		return true
+	}
+	return up(f, 0)
 }
 
 func blockReachList(b *ssa.BasicBlock) []*ssa.BasicBlock {
@@ -767,6 +924,58 @@ func nilFuncArgGuard(f *ssa.Function, b *ssa.BasicBlock) bool {
 		if nilFuncArgEdge(f, d) {
 			return true
 		}
+	}
+	return false
+}
+
+// funcArgument: the function value is one the caller handed in: a function-typed parameter, an element of a
+// parameter that is a slice of functions (options ...Option), or such a value captured by the closure f.
+func funcArgument(f *ssa.Function, v ssa.Value, depth int) bool {
+	if depth > 3 {
+		return false
+	}
+	switch x := core.StripConv(v).(type) {
+	case *ssa.Parameter:
+		return true
+	case *ssa.UnOp:
+		if x.Op != token.MUL {
+			return false
+		}
+		switch a := x.X.(type) {
+		case *ssa.IndexAddr:
+			_, isP := core.StripConv(a.X).(*ssa.Parameter)
+			return isP
+		case *ssa.Alloc:
+			if st := uniqueStore(a); st != nil {
+				return funcArgument(f, st.Val, depth+1)
+			}
+		case *ssa.FreeVar:
+			// the captured cell of the enclosing function's parameter
+			par := f.Parent()
+			if par == nil {
+				return false
+			}
+			for bi, fv := range f.FreeVars {
+				if fv != a {
+					continue
+				}
+				found := false
+				core.Instrs(par, func(in ssa.Instruction) {
+					mc, ok := in.(*ssa.MakeClosure)
+					if !ok || mc.Fn != ssa.Value(f) || bi >= len(mc.Bindings) {
+						return
+					}
+					if cell, isCell := mc.Bindings[bi].(*ssa.Alloc); isCell {
+						if st := uniqueStore(cell); st != nil && funcArgument(par, st.Val, depth+1) {
+							found = true
+						}
+					}
+				})
+				return found
+			}
+		}
+	case *ssa.FreeVar:
+		return false
 	}
 	return false
 }
@@ -804,11 +1013,13 @@ func nilFuncArgEdge(f *ssa.Function, b *ssa.BasicBlock) bool {
 				}
 			}
 		}
-		prm, isP := v.(*ssa.Parameter)
-		if !isP || !core.IsNilConst(pair[1]) {
+		if !core.IsNilConst(pair[1]) {
 			continue
 		}
-		if _, isFn := prm.Type().Underlying().(*types.Signature); !isFn {
+		if _, isFn := v.Type().Underlying().(*types.Signature); !isFn {
+			continue
+		}
+		if !funcArgument(f, v, 0) {
 			continue
 		}
 		nilOnTrue := (bo.Op == token.EQL) != neg
